@@ -326,6 +326,15 @@ func init() {
 			}
 			return r
 		}
+		if e, ok := a[1].(float64); ok && (e == 0.5 || e == 0.25) && m.mode == ModeReal {
+			// x^(1/2), x^(1/4) for x >= 0 (the guard makes a negative base a
+			// domain error: Pow would give NaN)
+			r := m.mathSqrt(a[0])
+			if e == 0.25 {
+				r = m.mathSqrt(r)
+			}
+			return r
+		}
 		panic(pathEnd{status: StUnsupported, msg: "math.Pow with symbolic operand"})
 	}))
 	reg("math.Sin", used("math.Sin/Cos", func(m *Machine, fr *frame, a []value) value { return m.mathSinCos(a[0], true) }))
